@@ -233,4 +233,22 @@ def _c20(tier="quick", seed=0):
     return _c20_prev(tier, seed) + flow.augassign_divisor_matches_generator("plotting:PlotData.__init__", "vals")
 
 
+def _order(tier="quick", seed=0):
+    """the integration step order of Model.process (C01, C06): stocks are stepped from the flows of the previous index, then the
+    parameters are evaluated from the new stocks, then the flows of the new index are computed from those parameters; at the first
+    index parameters are evaluated before and after the junction flush"""
+    out = flow.self_call_sequence("model:Model.process", "while", ["update_comps", "update_pars", "update_links"], "stocks, then parameters, then flows")
+    out += flow.self_call_sequence("model:Model.process", "if:self._t_index == 0", ["update_pars", "flush_junctions", "update_pars", "update_links"], "start-up: parameters, flush, parameters again, flows")
+    return out
+
+
+def _with_order(prev):
+    def f(tier="quick", seed=0):
+        return (prev(tier, seed) if prev else []) + _order(tier, seed)
+
+    return f
+
+
 EXTRA_CHECKS.update({"C18": _c18, "C16": _c16, "C20": _c20, "C09": _c09, "C08": _c08, "C15": _c15})
+EXTRA_CHECKS["C01"] = _with_order(EXTRA_CHECKS.get("C01"))
+EXTRA_CHECKS["C06"] = _with_order(EXTRA_CHECKS.get("C06"))
